@@ -76,6 +76,7 @@ type c14Fail struct {
 }
 
 func C14(r *core.Run) {
+	r.CLIOnly = true
 	dir := ""
 	if !r.IsWorker() {
 		dir = core.Scratch("c14")
